@@ -122,6 +122,10 @@ type c15WireCase struct {
 	Start  uint32   `json:"start"`
 	Reqs   []c15Req `json:"reqs"`
 	Rounds int      `json:"rounds"`
+	// RetryIdx > 0: in the first round, while everything is outstanding, request RetryIdx-1 (a QoS1 publish) gives up
+	// (its own context ends), is re-issued through its retry handle on the same connection, and then one more fresh
+	// request is made: its identifier must differ from every outstanding one, the retransmitted one included
+	RetryIdx int `json:"retryIdx,omitempty"`
 }
 
 func c15WireRun(tb rapid.TB, c c15WireCase) {
@@ -139,6 +143,9 @@ func c15WireRun(tb rapid.TB, c c15WireCase) {
 		before := len(r.peer.received())
 		var wg sync.WaitGroup
 		gate := make(chan struct{})
+		retryCtx, retryCancel := context.WithCancel(ctx)
+		defer retryCancel()
+		retryErr := make(chan error, 1)
 		for i, q := range c.Reqs {
 			i, q := i, q
 			wg.Add(1)
@@ -146,6 +153,10 @@ func c15WireRun(tb rapid.TB, c c15WireCase) {
 				defer wg.Done()
 				<-gate
 				tag := fmt.Sprintf("r/%d/%d", round, i)
+				if round == 0 && c.RetryIdx == i+1 && q.Kind == "pub1" {
+					retryErr <- r.cli.Publish(retryCtx, &Message{Topic: tag, QoS: QoS1, ID: uint16(q.ID), Payload: []byte("x")})
+					return
+				}
 				switch q.Kind {
 				case "pub1", "pub2":
 					qos := QoS1
@@ -201,6 +212,48 @@ func c15WireRun(tb rapid.TB, c c15WireCase) {
 				}
 			}
 		}
+		if round == 0 && c.RetryIdx > 0 && c.RetryIdx <= n && c.Reqs[c.RetryIdx-1].Kind == "pub1" {
+			rtag := fmt.Sprintf("r/0/%d", c.RetryIdx-1)
+			retryCancel()
+			var rerr error
+			select {
+			case rerr = <-retryErr:
+			case <-time.After(20 * time.Second):
+				vFailf(tb, r.log.strings(60), "Publish %s did not return after its context ended", rtag)
+			}
+			re, ok := rerr.(ErrorWithRetry)
+			if !ok {
+				vFailf(tb, r.log.strings(60), "Publish %s interrupted by its context returned %v, which has no retry handle", rtag, rerr)
+			}
+			wg.Add(1)
+			go func() { defer wg.Done(); _ = re.Retry(ctx, r.cli) }()
+			isRe := func(pk refPacket) bool { return pk.Type == rtPublish && pk.Topic == rtag }
+			if !r.peer.waitRecv(20*time.Second, isRe, 2) {
+				vFailf(tb, r.log.strings(60), "the retry handle of %s did not re-send the PUBLISH", rtag)
+			}
+			wg.Add(1)
+			go func() { defer wg.Done(); _, _ = r.cli.Subscribe(ctx, Subscription{Topic: "r/0/fresh", QoS: QoS1}) }()
+			isFresh := func(pk refPacket) bool { return pk.Type == rtSubscribe && pk.Filters[0] == "r/0/fresh" }
+			if !r.peer.waitRecv(20*time.Second, isFresh, 1) {
+				vFailf(tb, r.log.strings(60), "the fresh request after the retransmission never reached the wire")
+			}
+			for _, pk := range r.peer.received()[before:] {
+				if isRe(pk) && ids[pk.ID] != rtag {
+					vFailf(tb, r.log.strings(60), "the retry handle of %s re-sent it with packet identifier %d, first transmission had another", rtag, pk.ID)
+				}
+				if isFresh(pk) {
+					if pk.ID == 0 {
+						vFailf(tb, r.log.strings(60), "request r/0/fresh was sent with packet identifier 0")
+					}
+					if other, dup := ids[pk.ID]; dup {
+						vFailf(tb, r.log.strings(60), "packet identifier %d is given to r/0/fresh while %s is still outstanding with it (after %s was retransmitted on the same connection; counter start %#x)", pk.ID, other, rtag, c.Start)
+					}
+					r.peer.send(refPacket{Type: rtSubAck, ID: pk.ID, Codes: []int{1}})
+				}
+			}
+			total++ // the fresh SUBSCRIBE
+			total++ // the retransmitted PUBLISH
+		}
 		// now acknowledge everything so that the next round starts with nothing outstanding
 		for _, pk := range got {
 			switch pk.Type {
@@ -251,6 +304,7 @@ func TestVerifC15_Wire(t *testing.T) {
 	vRun(t, "C15", vOpts{CurFile: true}, func(rt *rapid.T) c15WireCase {
 		c := c15WireCase{Start: c15GenStart(rt), Rounds: rapid.IntRange(1, 3).Draw(rt, "rounds")}
 		n := rapid.IntRange(1, 16).Draw(rt, "n")
+		retry := rapid.IntRange(0, 2).Draw(rt, "retry") == 0
 		usedFixed := map[int]bool{}
 		for i := 0; i < n; i++ {
 			q := c15Req{Kind: rapid.SampledFrom([]string{"pub1", "pub2", "sub", "unsub"}).Draw(rt, "kind")}
@@ -264,6 +318,14 @@ func TestVerifC15_Wire(t *testing.T) {
 				}
 			}
 			c.Reqs = append(c.Reqs, q)
+		}
+		if retry {
+			for i, q := range c.Reqs {
+				if q.Kind == "pub1" {
+					c.RetryIdx = i + 1 // the first QoS1 publish: everything allocated after it is still outstanding
+					break
+				}
+			}
 		}
 		return c
 	}, c15WireRun)
@@ -346,4 +408,128 @@ func TestVerifC15_Wrap(t *testing.T) {
 	vRun(t, "C15", vOpts{}, func(rt *rapid.T) c15WrapCase {
 		return c15WrapCase{Start: c15GenStart(rt), Kind: rapid.SampledFrom([]string{"pub", "sub"}).Draw(rt, "kind")}
 	}, c15WrapRun)
+}
+
+// ---------------------------------------------------------------------------
+// (4) an identifier carried to another client by a retry handle
+
+type c15CarryCase struct {
+	Start1 uint32 `json:"start1"` // counter of the client on which the request is first made
+	Start2 uint32 `json:"start2"` // counter of the client on which it is retried
+	Fresh  int    `json:"fresh"`  // fresh requests made on the second client while the retransmission is outstanding
+}
+
+// c15CarryRun: a QoS1 publish is interrupted on client 1 and re-issued through its retry handle on client 2 (it keeps
+// its identifier X); while it is outstanding there, client 2 makes fresh requests. All outstanding identifiers on
+// client 2 must differ. Known finding D18: client 2's allocator does not know X, so a counter that happens to stand
+// just below X hands X out again [carry_over]; with D18 listed as known such cases are counted and not judged.
+func c15CarryRun(tb rapid.TB, c c15CarryCase) {
+	r1 := newBaseRig()
+	defer r1.shutdown()
+	r1.connect(tb)
+	atomic.StoreUint32(&r1.cli.idLast, c.Start1)
+	ctx1, cancel1 := context.WithCancel(context.Background())
+	errCh := make(chan error, 1)
+	go func() { errCh <- r1.cli.Publish(ctx1, &Message{Topic: "carried", QoS: QoS1, Payload: []byte("x")}) }()
+	isPub := func(pk refPacket) bool { return pk.Type == rtPublish && pk.Topic == "carried" }
+	if !r1.peer.waitRecv(20*time.Second, isPub, 1) {
+		cancel1()
+		tb.Fatalf("harness: first transmission not seen")
+	}
+	x := 0
+	for _, pk := range r1.peer.received() {
+		if isPub(pk) {
+			x = pk.ID
+		}
+	}
+	cancel1()
+	var err error
+	select {
+	case err = <-errCh:
+	case <-time.After(20 * time.Second):
+		tb.Fatalf("harness: Publish did not return after cancel")
+	}
+	re, ok := err.(ErrorWithRetry)
+	if !ok {
+		vFailf(tb, nil, "interrupted Publish returned %v without a retry handle", err)
+	}
+	r2 := newBaseRig()
+	defer r2.shutdown()
+	r2.connect(tb)
+	atomic.StoreUint32(&r2.cli.idLast, c.Start2)
+	ctx, cancel := context.WithCancel(context.Background())
+	defer cancel()
+	var wg sync.WaitGroup
+	wg.Add(1)
+	go func() { defer wg.Done(); _ = re.Retry(ctx, r2.cli) }()
+	if !r2.peer.waitRecv(20*time.Second, isPub, 1) {
+		vFailf(tb, r2.log.strings(40), "the retry handle did not re-send the PUBLISH on the second client")
+	}
+	for i := 0; i < c.Fresh; i++ {
+		i := i
+		wg.Add(1)
+		go func() {
+			defer wg.Done()
+			_, _ = r2.cli.Subscribe(ctx, Subscription{Topic: fmt.Sprintf("fresh/%d", i), QoS: QoS1})
+		}()
+	}
+	isFresh := func(pk refPacket) bool { return pk.Type == rtSubscribe }
+	if !r2.peer.waitRecv(20*time.Second, isFresh, c.Fresh) {
+		vFailf(tb, r2.log.strings(40), "only %d of %d fresh requests reached the wire", r2.peer.countRecv(isFresh), c.Fresh)
+	}
+	ids := map[int]string{}
+	collided := false
+	var msg string
+	for _, pk := range r2.peer.received() {
+		name := ""
+		switch {
+		case isPub(pk):
+			name = "carried"
+			if pk.ID != x {
+				vFailf(tb, r2.log.strings(40), "the retransmission carries identifier %d, the first transmission had %d", pk.ID, x)
+			}
+		case isFresh(pk):
+			name = pk.Filters[0]
+		default:
+			continue
+		}
+		if pk.ID == 0 {
+			vFailf(tb, r2.log.strings(40), "request %s was sent with packet identifier 0", name)
+		}
+		if other, dup := ids[pk.ID]; dup {
+			if other == "carried" || name == "carried" {
+				collided = true
+				msg = fmt.Sprintf("identifier %d, carried over from another client by the retry handle of an outstanding request, was also given to %s (second client's counter start %#x) [carry_over]", pk.ID, name+other[:0], c.Start2)
+			} else {
+				vFailf(tb, r2.log.strings(40), "packet identifier %d is used by two outstanding requests: %s and %s", pk.ID, other, name)
+			}
+		}
+		ids[pk.ID] = name
+	}
+	cancel()
+	wg.Wait()
+	if collided {
+		if vKnown("D18") {
+			vKnownHit("C15", "D18")
+			vCount("C15", false, vJSON(c), []string{"carry:excluded-known-D18"}, func() interface{} { return c })
+			return
+		}
+		vFailf(tb, r2.log.strings(40), "%s", msg)
+	}
+	vCount("C15", c.Fresh >= 1, vJSON(c), []string{fmt.Sprintf("carry:fresh=%d", c.Fresh)}, func() interface{} { return c })
+}
+
+func TestVerifC15_CarryOver(t *testing.T) {
+	vRun(t, "C15", vOpts{CurFile: true}, func(rt *rapid.T) c15CarryCase {
+		c := c15CarryCase{Start1: c15GenStart(rt), Fresh: rapid.IntRange(0, 6).Draw(rt, "fresh")}
+		switch rapid.IntRange(0, 2).Draw(rt, "rel") {
+		case 0:
+			c.Start2 = c15GenStart(rt)
+		case 1:
+			c.Start2 = c.Start1 + uint32(rapid.IntRange(1, 40).Draw(rt, "ahead")) // just past the carried identifier
+		default:
+			c.Start2 = c.Start1 - uint32(rapid.IntRange(7, 40).Draw(rt, "behind")) // approaching it, but not reaching it
+		}
+		return c
+	}, c15CarryRun)
 }
